@@ -39,3 +39,22 @@ Theorem C14_xz_leaves_planar_poses_unchanged_refuted : forall eps4 : R, exists c
   c * c + s * s = 1 /\ @proj_rot R _ eps4 XZ (roty c s) <> roty c s.
 Proof. exact proj_xz_fixes_planar_refuted. Qed.
 Print Assumptions C14_xz_leaves_planar_poses_unchanged_refuted.
+(* true projection: the pose map applied twice is the pose map applied once, on every pose and all three planes
+   (the XZ defect F3 is about planar INPUT poses with negative heading cosine; the OUTPUT of the map is always fixed by it) *)
+Theorem C14_pose_map_is_idempotent : forall eps4 : R, 0 <= eps4 < 1 -> forall pl (p : PoseR),
+  @proj_pose R _ eps4 pl (@proj_pose R _ eps4 pl p) = @proj_pose R _ eps4 pl p.
+Proof. exact proj_pose_idempotent. Qed.
+Print Assumptions C14_pose_map_is_idempotent.
+(* the operation on the object: timestamps, count and order stay *)
+Theorem C14_count_order_timestamps_unchanged : forall qfm cbrt (eps4 : R) (s : @traj R) pl s',
+  @step R _ qfm cbrt eps4 s (Project pl) = Some s' ->
+  t_stamps s' = t_stamps s /\ @poses_of R _ eps4 s' = map (@proj_pose R _ eps4 pl) (@poses_of R _ eps4 s) /\
+  length (@poses_of R _ eps4 s') = length (@poses_of R _ eps4 s).
+Proof. exact project_keeps_stamps_count_order. Qed.
+Print Assumptions C14_count_order_timestamps_unchanged.
+(* a second projection of the same object is refused, whatever happened to the object in between *)
+Theorem C14_second_projection_refused : forall qfm cbrt (eps4 : R) (s : @traj R) pl s1 ops_ s2 pl',
+  @step R _ qfm cbrt eps4 s (Project pl) = Some s1 -> @run R _ qfm cbrt eps4 s1 ops_ = Some s2 ->
+  @step R _ qfm cbrt eps4 s2 (Project pl') = None.
+Proof. exact second_projection_refused. Qed.
+Print Assumptions C14_second_projection_refused.
